@@ -115,6 +115,52 @@ fn part_a(ctx: &mut Ctx, evals: &mut u64, nontrivial: &mut u64, samples: &mut Ve
     }
 }
 
+/// single-entry prefixes cannot be extrapolated by super-additivity; `extrapolate_with_bound`
+/// takes the given bound as is.  The result must keep the entry, never exceed the plain curve
+/// inside the extended prefix and bound every sequence that respects the entry AND the bound.
+fn part_a_single(ctx: &mut Ctx, evals: &mut u64, nontrivial: &mut u64) {
+    let h = 40u64;
+    for p0 in 1..=(if ctx.quick() { 6u64 } else { 10 }) {
+        let pf = vec![p0];
+        let plain_eta = eta_vec(&ArrSpec::curve(&pf), h);
+        // (only consistent bounds: three jobs cannot need less distance than two)
+        for delta in (p0 + 1)..=(3 * p0 + 3) {
+            for n in [2usize, 3, 4] {
+                *evals += 1;
+                let e = Ext::WithBound(delta, n);
+                let case = json!({"dmin": pf, "ext": e});
+                let r = catch(|| {
+                    let mut c = ArrSpec::curve(&pf);
+                    c.extrapolate_with_bound((d(delta), n));
+                    (du(c.min_distance(2)), eta_vec(&c, h), du(c.min_distance(1 << 40)))
+                });
+                match r {
+                    Err(err) => ctx.violation("arrival::Curve::extrapolate_with_bound#panic", &format!("prefix {:?} {:?}: panic {err}", pf, e), "ext", case),
+                    Ok((kept, eta, reach)) => {
+                        if reach > p0 {
+                            *nontrivial += 1;
+                        }
+                        if kept != p0 {
+                            ctx.violation("arrival::Curve::extrapolate_with_bound#changes-prefix", &format!("prefix {:?} {:?}: entry became {kept}", pf, e), "ext", case.clone());
+                        }
+                        if let Some(x) = (0..=(h.min(reach)) as usize).find(|x| eta[*x] > plain_eta[*x]) {
+                            ctx.violation("arrival::Curve::extrapolate_with_bound#more-arrivals-than-plain", &format!("prefix {:?} {:?}: {} arrivals at delta={x}, un-extrapolated curve claims {}", pf, e, eta[x], plain_eta[x]), "ext", case.clone());
+                        }
+                        let mut dd = vec![p0 as i16];
+                        if n == 3 {
+                            dd.push((delta as i16 - 1).max(p0 as i16));
+                        }
+                        let (m, ..) = Aut::Dmin { d: dd }.max_events(h as usize);
+                        if let Some(x) = (0..=h as usize).find(|x| m[*x] > eta[*x] as u64) {
+                            ctx.violation("arrival::Curve::extrapolate_with_bound#undercounts-prefix-compliant-sequence", &format!("prefix {:?} {:?}: {} arrivals at delta={x} but a sequence respecting the prefix and the bound has {}", pf, e, eta[x], m[x]), "ext", case.clone());
+                        }
+                    }
+                }
+            }
+        }
+    }
+}
+
 // ---------------- cache histories ----------------
 
 #[derive(Clone, Copy, Debug, Serialize, Deserialize, PartialEq, Eq)]
@@ -290,6 +336,7 @@ pub fn run(ctx: &mut Ctx) -> (String, Value, Vec<String>) {
     let mut nontrivial = 0;
     let mut samples = vec![];
     part_a(ctx, &mut evals, &mut nontrivial, &mut samples);
+    part_a_single(ctx, &mut evals, &mut nontrivial);
     let a_evals = evals;
     part_b(ctx, &mut evals, &mut nontrivial, &mut samples);
     let cov = json!({
